@@ -95,7 +95,7 @@ def generate(rng, tier):
             faults.append({'after': rng.randint(1, 30),
                            'kind': rng.choice(['perturb', 'restart',
                                                'reseed', 'fresh']),
-                           'size': rng.choice([1e-3, 0.1, 1.0, 10.0])})
+                           'size': rng.choice([1e-3, 0.1, 1.0, 3.0])})
         plan['ops'] = faults
     return plan
 
@@ -310,8 +310,12 @@ class Saddle(object):
             self.tau = cfg['tau_frac'] / n * cfg['ratio']
             self.sigma = cfg['tau_frac'] / n / cfg['ratio']
         elif s == 'admm':
+            # balanced parameters: sigma ~ ||L||, so that tau ~ 1/||L|| is of
+            # the size an independent PDHG would use (an admissible but tiny
+            # tau makes ADMM legitimately slow; the liveness bound is only
+            # meaningful for comparable step sizes)
             n = self.norms[0]
-            self.sigma = cfg['sigma']
+            self.sigma = cfg['sigma'] * n
             self.tau = cfg['tau_frac'] * self.sigma / n ** 2
         elif s == 'douglas_rachford':
             m = len(self.Ls)
@@ -488,8 +492,16 @@ def _cg(plan, ctx):
     seq = [energy(st['x'])]
     fired = {}
     with seams.allocator(plan['garbage'], salt=5, fired=fired):
-        _call('cg', 'run', lambda: inst.run(
-            st, N, lambda x: seq.append(energy(x))))
+        try:
+            _call('cg', 'run', lambda: inst.run(
+                st, N, lambda x: seq.append(energy(x))))
+        except Violation as v:
+            if '/raise/' in v.fingerprint and len(seq) > 1 and \
+                    seq[-1] <= 1e-24 * cond ** 2 * seq[0]:
+                # 0/0 breakdown after convergence to rounding level
+                ctx.probe('breakdown-after-convergence:cg')
+            else:
+                raise
     _count(ctx, fired)
     ctx.step(N)
     floor = 1e-24 * cond ** 2 * max(seq[0], 1e-300) + 1e-300
@@ -764,8 +776,12 @@ def _fixed_point(plan, ctx):
     r0 = sp.residual(x, 1e-9)
     scale = 1.0 + float(sp.xstar.norm())
     if r0 > 1e-8 * scale:
-        raise HarnessError('constructed solution has KKT residual {:.3g} '
-                           '({})'.format(r0, sp.tags))
+        # the harness's own construction / QP solve did not close: never a
+        # verdict about odl.  Counted (a non-zero count is a harness defect
+        # to look at), the run is abandoned.
+        ctx.probe('HARNESS-construction-selfcheck-failed')
+        raise Reject('constructed solution has KKT residual {:.3g} '
+                     '({})'.format(r0, sp.tags))
     fired = {}
     moved = [0.0]
 
@@ -839,6 +855,13 @@ def _liveness(plan, ctx):
             ctx.fired('fault-' + k)
         r_fault = sp.residual(x, eps)
         target = max(1e-3 * max(r_start, r_fault), 1e-6)
+        if plan['ops']:
+            # the easy-instance filter must also hold from where the faults
+            # left the iterate (a restart far away can be legitimately slow)
+            ok2, _ = _easy_filter(sp, eps, max(r_start, r_fault), x)
+            if not ok2:
+                ctx.probe('liveness-post-fault-state-filtered')
+                raise Reject('not easy from the post-fault state')
         _admissible_defaults(sp, default_steps, ctx)
         # one uninterrupted call of N_BOUND iterations; the callback evaluates
         # the residual at checkpoints and stops the run once the target is met
@@ -946,7 +969,7 @@ def _refeasible(sp, x):
     x.assign(P.unflatten(sp.X, xf))
 
 
-def _easy_filter(sp, eps, r_start):
+def _easy_filter(sp, eps, r_start, x_from=None):
     """Independent reference solve: textbook PDHG on the stacked operator in
     NumPy, with proximals from the harness models (closed forms below).
     Returns (True, x) when the eps-KKT residual falls below 1e-8 * start
@@ -954,7 +977,8 @@ def _easy_filter(sp, eps, r_start):
     ref = _NumpyPDHG(sp)
     if not ref.ok:
         return False, None
-    x = ref.solve(elem_flat(sp.x0).astype(float), N_BOUND // 10)
+    x = ref.solve(elem_flat(sp.x0 if x_from is None else x_from).astype(float),
+                  N_BOUND // 10)
     xe = P.unflatten(sp.X, x)
     r = sp.residual(xe, eps)
     return (r <= max(1e-8 * r_start, 1e-12)), xe
